@@ -28,6 +28,7 @@ from symx.core import SInt
 from specs.den import den, NoClaim, Malformed
 
 BASE = 0x1000
+SPAN = 8     # pointer values range over [BASE, BASE+SPAN]: every relative placement of accesses <= 4 bytes with offsets in [-1,4]
 WIN_LO = BASE - 16
 WIN_HI = BASE + 48
 
@@ -90,20 +91,22 @@ def _interp(post, tag, r, width, expected):
 
 
 @factory
-def aliasing(prog, noaliasing, memtrace, endian):
-    """prog: list of ('st', ptr, off, nbytes, srcreg) | ('ld', dstreg, ptr, off, nbytes)"""
+def aliasing(prog, noaliasing, memtrace, endian, pslice=None):
+    """prog: list of ('st', ptr, off, nbytes, srcreg) | ('ld', dstreg, ptr, off, nbytes);
+    pslice=(lo,hi): the obligation covers the placements with p in [BASE+lo, BASE+hi] (the slices
+    partition the window; they only spread the path tree over the workers)"""
     prog = [tuple(x) for x in prog]
+    plo, phi = pslice if pslice else (0, SPAN)
 
     def body(V):
         regs = {n: E.reg(n, 32) for n in ("p", "q", "r0", "r1", "x0", "x1", "x2")}
         vals = {}
         # pointers: every relative placement inside the window
-        vals["p"] = V.int("p", BASE, BASE + 16)
-        vals["q"] = V.int("q", BASE, BASE + 16)
+        vals["p"] = V.int("p", BASE + plo, BASE + phi)
+        vals["q"] = V.int("q", BASE, BASE + (SPAN if not noaliasing else 24))
         if noaliasing:
             # distinct pointers do not overlap (the claim's restriction)
-            vals["q"] = vals["q"] + 0
-            V.assume(Or(vals["q"] - vals["p"] >= 16, vals["p"] - vals["q"] >= 16))
+            V.assume(Or(vals["q"] - vals["p"] >= 12, vals["p"] - vals["q"] >= 12))
         for n in ("r0", "r1"):
             vals[n] = V.int(n, 0, (1 << 32) - 1)
         init = V.bytes("m", WIN_HI - WIN_LO)
@@ -159,12 +162,13 @@ def aliasing(prog, noaliasing, memtrace, endian):
         if ins[0] == "st":
             return "st[%s%+d,%d]=%s" % (ins[1], ins[2], ins[3], ins[4])
         return "%s=ld[%s%+d,%d]" % (ins[1], ins[2], ins[3], ins[4])
-    oid = "A/%s/%s/%s/%s" % (";".join(show(i) for i in prog), "noalias" if noaliasing else "alias", "trace" if memtrace else "notrace", "le" if endian == 1 else "be")
+    oid = "A/%s/%s/%s/%s%s" % (";".join(show(i) for i in prog), "noalias" if noaliasing else "alias", "trace" if memtrace else "notrace", "le" if endian == 1 else "be",
+                               "" if pslice is None else "/p=%d-%d" % tuple(pslice))
     return Obligation(oid, body, ["C09"],
                       ["amoco.cas.mapper:mapper.__setitem__", "amoco.cas.mapper:mapper.M", "amoco.cas.mapper:mapper.aliasing", "amoco.cas.mapper:mapper._Mem_read",
                        "amoco.cas.mapper:mapper._Mem_write", "amoco.cas.mapper:mapper.rcompose", "amoco.cas.mapper:mapper.__rshift__", "amoco.cas.expressions:mem.eval",
                        "amoco.cas.expressions:ptr.eval", "amoco.system.memory:MemoryMap.read", "amoco.system.memory:MemoryMap.write"],
-                      mode="bv", W=96, level="Bsym", bound="programs of <= 4 accesses over two pointers, offsets in {0,1,3,4,-1}, sizes 1..8 bytes; pointer values range over a 17-byte window each (every relative placement), initial memory defined on the window",
+                      mode="bv", W=96, level="Bsym", bound="programs of <= 4 accesses over two pointers, offsets in {0,1,3,4,-1}, sizes 1..8 bytes; pointer values range over a 9-byte window each (every relative placement of the accesses), initial memory defined on the window",
                       before_path=_conf(noaliasing, memtrace), samples=10, maxpaths=20000, index_limit=300, vc_timeout_ms=30000, budget_s=600)
 
 
@@ -213,10 +217,11 @@ def obligations(prop, tier, seed):
             else:
                 configs = rng.sample(configs, 2)
             for (na, mt, e) in configs:
-                o = aliasing(prog=prog, noaliasing=na, memtrace=mt, endian=e)
-                o.weight = 4 ** len(prog)
-                o.optional = k >= len(FIXED_PROGRAMS)
-                obs.append(o)
+                for ps in ((0, 2), (3, 5), (6, 8)):
+                    o = aliasing(prog=prog, noaliasing=na, memtrace=mt, endian=e, pslice=list(ps))
+                    o.weight = 4 ** len(prog)
+                    o.optional = k >= len(FIXED_PROGRAMS)
+                    obs.append(o)
     seen = set()
     out = []
     for o in obs:
